@@ -672,9 +672,34 @@ func directiveFree(src string, doc bool) bool {
 			walk(c)
 		}
 	}
+	// a comment between two text runs makes "whitespace between the runs" ambiguous (the
+	// statement calls whitespace and comments insignificant): not generated either
+	var scan func(list []*xhtml.Node)
+	scan = func(list []*xhtml.Node) {
+		for i, c := range list {
+			if c.Type == xhtml.CommentNode {
+				p, q := i-1, i+1
+				for p >= 0 && list[p].Type == xhtml.CommentNode {
+					p--
+				}
+				for q < len(list) && list[q].Type == xhtml.CommentNode {
+					q++
+				}
+				if p >= 0 && list[p].Type == xhtml.TextNode && q < len(list) && list[q].Type == xhtml.TextNode {
+					ok = false
+				}
+			}
+			var kids []*xhtml.Node
+			for k := c.FirstChild; k != nil; k = k.NextSibling {
+				kids = append(kids, k)
+			}
+			scan(kids)
+		}
+	}
 	for _, n := range nodes {
 		walk(n)
 	}
+	scan(nodes)
 	return ok
 }
 
